@@ -811,6 +811,22 @@ def mknot(x):
 # parameters of the function being summarised that it uses as array indices or range bounds (set by refspec.Summary for the time it
 # summarises one function): they are integers, or the function would raise
 INT_PARAMS: set = set()
+INT_ARRAY_PARAMS: set = set()
+INT_TERMS: set = set()      # terms the function uses as a scalar array index somewhere (set by refspec.Summary while it summarises)
+
+
+def int_array_params(fn):
+    """parameters that the numpy-style docstring declares as integer arrays (`name : ndarray, int, shape (..)`)"""
+    import ast as _ast, re as _re
+    doc = _ast.get_docstring(fn) or ''
+    out = set()
+    for m in _re.finditer(r'^\s*(\w+(?:\s*,\s*\w+)*)\s*:\s*(.+)$', doc, _re.M):
+        typ = m.group(2).lower()
+        if 'ndarray' in typ and _re.search(r'\bint\b', typ) and 'float' not in typ:
+            for nm in m.group(1).split(','):
+                out.add(nm.strip())
+    params = {a.arg for a in fn.args.posonlyargs + fn.args.args + fn.args.kwonlyargs}
+    return out & params
 
 
 def int_params(fn):
@@ -846,6 +862,12 @@ def is_int_term(t, depth=0):
         return isinstance(t[1], int) and not isinstance(t[1], bool)
     if h == 'param':
         return t[1] in INT_PARAMS
+    if h == 'idx':
+        # an element of a parameter that the docstring declares as an integer array
+        b = t[1]
+        while isinstance(b, tuple) and b and b[0] in ('carried', 'after') and len(b) > 2:
+            b = b[2]
+        return isinstance(b, tuple) and b[:1] == ('param',) and b[1] in INT_ARRAY_PARAMS
     if h == 'call':
         return t[1] in ('len', 'int', '.count', '.index')
     if h == 'proj':
@@ -859,6 +881,14 @@ def is_int_term(t, depth=0):
         return t[1] in ('Add', 'Sub', 'Mult', 'FloorDiv', 'Mod') and is_int_term(t[2], depth + 1) and is_int_term(t[3], depth + 1)
     if h == 'un':
         return t[1] == 'USub' and is_int_term(t[2], depth + 1)
+    if h == 'phi':
+        if is_int_term(t[2], depth + 1) and is_int_term(t[3], depth + 1):
+            return True
+    if INT_TERMS and h in ('idx', 'phi', 'carried', 'after'):
+        try:
+            return t in INT_TERMS
+        except TypeError:
+            return False
     return False
 
 
